@@ -29,41 +29,78 @@ RULE = ("cells = generic models (backing dense/csr/csc/function pair x domain ge
         "dim x field type); every cell evaluates forward on the complete domain basis and adjoint on the complete range "
         "basis of the real model, its get_matrix() and its transpose model T (taken before and after the matrix is "
         "cached); generic cells are also compared with an independent dense reference fun2par_range . A . par2fun_domain "
-        "written out in numpy from the documented conventions (reshape/ravel order of the image kinds, identity-like and "
-        "mapped 1-D kinds), and may not raise; input-representation facet: every map (forward, adjoint, T.forward, "
+        "written out in numpy from the documented conventions (reshape/ravel order of the image kinds, identity-like, "
+        "mapped and step-expansion 1-D kinds), and may not raise (neither in construction nor in any map); "
+        "input-representation facet: every map (forward, adjoint, T.forward, "
         "T.adjoint) is re-evaluated on the complete basis and one generic vector with the argument handed over as "
         "CUQIarray of parameters / CUQIarray of function values / plain function values with is_par=False (each "
         "carrying the geometry of its side) and must give the plain-vector images, so <A x, y> = <x, A* y> and "
-        "get_matrix() @ x == forward(x) hold for every pair of representations of x and y; a cell is non-trivial when "
+        "get_matrix() @ x == forward(x) hold for every pair of representations of x and y; "
+        "option-representation facet: every option of the catalogued geometry classes and shipped problems that is a "
+        "string or an enumerated value is given in every representation the library accepts - Image2D order 'C' / 'F' / "
+        "'c' / 'f' (full product on the two sides), StepExpansion fun2par_projection 'mean' / 'max' / 'min' each lower / "
+        "Capitalised / UPPER (max and min where they are linear: one node per step), Discrete(count) / Discrete(list of "
+        "names), PSF and BC names of Deconvolution1D/2D lower / Capitalised / UPPER, legacy PSF names in their documented "
+        "mixed case and the alias 'prolate'; integer-type facet: every integer constructor argument (image shape "
+        "entries, sizes, n_steps, num_modes, dim, PSF_size) as numpy.int64 instead of int; a cell of these two facets "
+        "runs the complete check above (its dense reference is written from the documented case-insensitive meaning of the "
+        "option) and additionally must have the same F and G as its canonical twin (same options, canonical "
+        "representation) and may refuse construction only if the twin is refused too; "
+        "a cell is non-trivial when "
         "forward and adjoint were both evaluated (not refused) and F has at least two distinct non-zero entries")
 BOUND = {
-    "quick": "generic 1-D: 4 backings x 10x10 geometry kinds x shapes {4x5, 3x3}; generic 2-D (function pair): 4x4 image "
-             "geometry kinds x {L.X.R: (2x3)->(3x2), (2x3)->(2x3), (3x3)->(3x3); shift: 2x3, 3x3; transposition: 2x3, "
-             "3x3} + image<->vector {(2x3)->4, (3x3)->2, 4->(2x3), 2->(3x3)} x 4 image kinds x 2 vector kinds; 4 "
+    "quick": "generic 1-D: 4 backings x 10x10 geometry kinds x shapes {4x5, 3x3}; + 11 re-represented 1-D kinds (2 Step "
+             "mean spellings, 8 Step-full projection spellings, Discrete by names) on domain / range / both sides against "
+             "{default} x 4 backings x shape 4x5; + numpy.int64 arguments: 6x6 kinds taking integers x {dense, function} x "
+             "4x5; generic 2-D (function pair): 6x6 image "
+             "geometry kinds (4 canonical + Image2D order 'c', 'f') x {L.X.R: (2x3)->(3x2), (2x3)->(2x3), (3x3)->(3x3); "
+             "shift: 2x3, 3x3; transposition: 2x3, "
+             "3x3} + image<->vector {(2x3)->4, (3x3)->2, 4->(2x3), 2->(3x3)} x 6 image kinds x 2 vector kinds; the same "
+             "shapes with numpy.int64 shape entries x 4x4 canonical image kinds; 4 "
              "view-returning function pairs; Deconvolution1D dim {7,8} x 4 PSFs x PSF size {3,4,dim} x 5 BCs + "
              "legacy (dim 8, 4 PSFs); Deconvolution2D dim {5,6} x 4 PSFs x PSF size {3,4,5} x 5 BCs; Abel1D dim {4,7} x "
-             "4 field types; 4 input representations on forward/adjoint of every cell and on T.forward/T.adjoint of "
+             "4 field types; option spellings: Deconvolution1D dim 8 / Deconvolution2D dim 5, PSF size 3, 3 named PSFs x 5 "
+             "BCs x {Capitalised, UPPER} (both names in the same style), 9 legacy PSF spellings; numpy.int64 dim / "
+             "PSF_size / n_steps / num_modes: Deconvolution1D dim 8 and Deconvolution2D dim 5 x {gauss, custom} x size 3 x "
+             "5 BCs, 4 legacy, Abel1D dim 7 x 4 field types; 4 input representations on forward/adjoint of every cell "
+             "and on T.forward/T.adjoint of "
              "the generic cells; one value catalogue (seed % 3)",
-    "thorough": "as quick with generic 1-D shapes {4x5, 5x4, 3x3, 6x6, 8x7}, generic 2-D L.X.R 6 shape pairs, shift 5 "
-                "shapes, transposition 3 shapes, image<->vector 3+3 shapes, Deconvolution1D dim {7,8,12}, PSF size {3,4,5,6,dim}, Deconvolution2D "
-                "dim {5,6,8} PSF size {3,4,5,6}, Abel1D dim {4,7,10}; 4 input representations on all four maps of "
+    "thorough": "as quick with generic 1-D shapes {4x5, 5x4, 3x3, 6x6, 8x7}, the 11 re-represented 1-D kinds against all 10 "
+                "canonical kinds x shapes {4x5, 3x3}, numpy.int64 1-D cells x 4 backings x {4x5, 3x3}, generic 2-D L.X.R 6 "
+                "shape pairs, shift 5 "
+                "shapes, transposition 3 shapes, image<->vector 3+3 shapes, all with 6x6 image kinds x {int, numpy.int64}, "
+                "Deconvolution1D dim {7,8,12}, PSF size {3,4,5,6,dim}, Deconvolution2D "
+                "dim {5,6,8} PSF size {3,4,5,6}, Abel1D dim {4,7,10}; option spellings of the shipped problems: PSF style x "
+                "BC style independently (3x3-1) x PSF size {3,4}; numpy.int64 shipped cells x 4 PSFs x size {3,4}; 4 input "
+                "representations on all four maps of "
                 "every cell",
 }
 ASSUMPTIONS = [
     "a shipped test problem that raises in forward/adjoint/T is counted as refused, not as wrong; the generic models "
     "are built from callables defined on the documented function shape of geometries that have both maps, so a raise "
     "there is a failure",
-    "MappedGeometry is only exercised with linear maps (flip, scaling) - a non-linear map makes the model non-linear",
+    "MappedGeometry is only exercised with linear maps (flip, scaling) - a non-linear map makes the model non-linear; "
+    "likewise StepExpansion's 'max' / 'min' projections are only exercised where they are linear (one grid node per "
+    "step, where they coincide with the mean)",
     "equality is decided at 1e-9 relative on dense matrices of dimension <= 64",
     "the identity is checked in the Euclidean inner product of the parameter vectors (as the statement says)",
     "matrix-backed models are built with a matrix of shape (range_dim, domain_dim); a smaller matrix that happens to "
     "broadcast over the columns of an image-shaped function value is outside the documented use and not judged",
-    "the dense reference covers identity-like, mapped (flip/scale) and image geometry kinds; for KL / step expansions "
+    "the dense reference covers identity-like, mapped (flip/scale), step-expansion (documented step membership and "
+    "mean projection) and image geometry kinds; for KL expansions "
     "the geometry maps are not re-implemented here (forward is then only compared with get_matrix/T/its other "
-    "representations)",
+    "representations and, in the representation facets, its canonical twin)",
     "function-value representations of x are obtained with the geometry's own par2fun (they present the same x; the "
     "correctness of par2fun itself is judged through the dense reference where one exists)",
     "only the values of the returned parameter vectors are judged, not the wrapper type of the output",
+    "option strings are read case-insensitively (the library lower-cases them or hands them to numpy, and its "
+    "docstrings mix 'Gauss' / 'zero' / 'Mirror'); spellings the library does not accept on the unchanged tree (numpy's "
+    "order 'A'/'K', which are not documented for Image2D; field_type of Abel1D, compared exactly) are not part of the "
+    "alphabet; a bare numpy.int64 standing for the default 1-D geometry is refused by Model as documented ('int') and "
+    "is not used",
+    "for the shipped problems the oracle of a re-spelled / numpy-integer option is the differential one (same F and G "
+    "as the canonical spelling, plus all identities of this property); whether the canonical operator is the "
+    "documented convolution is C17's subject",
 ]
 
 BACKINGS = ["dense", "csr", "csc", "func"]
